@@ -243,8 +243,10 @@ class BGPLS(NLRI):
 
         # For VPN, need 8 more bytes for RD
         if safi == SAFI.bgp_ls_vpn:
-            if len(data) < 12:
-                raise Notify(3, 10, f'BGP-LS VPN NLRI too short: need at least 12 bytes, got {len(data)}')
+            # (no test on len(data) here: it counts whatever FOLLOWS this NLRI as well, so the same
+            # short NLRI of an unregistered type was stored as a generic when another NLRI came
+            # after it and refused when it was the last one; truncation is tested below, on the
+            # announced length)
             # the announced length covers the route distinguisher, so anything below its
             # size leaves a negative payload length. Only a registered code does that
             # subtraction: an unregistered one keeps the whole wire format, and refusing it
